@@ -155,6 +155,13 @@ def check_config(ctx, F, tag):
 
     # ---------------- R2 width predicate
     check_width_predicate(ctx, F, tag, "C09.R2")
+    # "select / select_zero(r >= count) = None with empty iterators": an iterator built for an out-of-range start has length 0
+    import c10
+    from core import Relabel
+    c10.check_config(Relabel(ctx, {"C10.R8.exhausted-construction-has-length-zero": "C09.R4.out-of-range-start-is-empty",
+                                   "C10.R1.counts-every-item": ("C09.R4.nth-beyond-the-end-exhausts", lambda k: "::nth" in k)}), F, tag, "native")
+    import c16
+    c16.check_config(Relabel(ctx, {"C16.R2.unchecked-call-discharged": ("C09.R5.builder-step-refused", lambda k: "try_set" in k)}), F, tag)
     check_wm_load_width(ctx, F, tag)
     return check_config_tail(ctx, F, tag)
 
